@@ -70,6 +70,27 @@ CLAIMS = {
          'produced by convert_slots_to_old is not an input form of '
          'convert_slots_to_new).',
     design='4/C19'),
+ 'C01': dict(
+    text='Inductive step decided by bounded symbolic execution of the real agent '
+         'scheduler (Continuous._find_resources, schedule_task, _iterate_nodes, '
+         'AgentSchedulingComponent._try_allocation, _change_slot_states, '
+         '_schedule_incoming with application-supplied slots) and of the client-side '
+         'Node.find_slot / allocate_slot / deallocate_slot: from an arbitrary '
+         'occupancy map (every core/GPU cell FREE/BUSY/DOWN, symbolic lfs/mem left) '
+         'one grant for a symbolic request is computed and compared cell by cell '
+         'with the pre-state: only free cells, no cell twice, GPU shares per GPU <= '
+         '1, lfs/mem within what is left, DOWN never handed out, map afterwards == '
+         'map before + grant.  One step from an arbitrary state covers histories of '
+         'any length.',
+    note='Trusted: CrossHair/z3 path exhaustion; _log/_prof/pprint stubs, mp.Queue -> '
+         'in-memory queue, advance -> recorder.  Bounds: 1 node x 2..4 cores x 1..2 '
+         'GPUs for _find_resources; 2 nodes x 2 cores x 1 GPU for schedule_task; ranks '
+         '<= 3, cores/rank <= 2, GPU amounts {0,.25,.5,1,2}; lfs/mem from concrete '
+         'tables on the agent side (float floor arithmetic), symbolic on the client '
+         'side.  ContinuousJsrun, Hombre and NUMA nodes are outside the bound.  One '
+         'known finding (application-supplied slots are not validated) is excluded by '
+         'region and printed as KNOWN-FINDING.',
+    design='4/C01'),
 }
 
 NOT_YET = 'check not built yet in this session (see DESIGN.md section 4 for the plan)'
